@@ -1,12 +1,21 @@
 import FpVerif.Base
 /-!
-# Slice heap: `fp.Seq` (seq.go) and package `seq` at the level of Go's backing arrays (C04)
+# Slice heap: `fp.Seq` (seq.go), package `seq`, the merge monoids and `Iterator.ToSeq` at the level of Go's
+# backing arrays (C04)
 
-A heap is a list of backing arrays; a slice is a window `(arr, off, len, cap)` into one of them (or nil).
-Each library operation either returns a window into an array it was given (`alias`), or allocates a
-fresh array (`fresh`), or returns no slice; the heap it leaves is the old heap plus its fresh arrays.
-What the model must get right for the persistence property: WHICH operations write to a pre-existing
-array (none may), and which results share storage with their inputs.
+A heap is a list of backing arrays (each listed over its FULL capacity); a slice is a window
+`(arr, off, len, cap)` into one of them (or nil).  The library functions are written as small imperative
+programs over Go's primitives, statement by statement as in the Go source:
+
+* `make([]T, len, cap)`  — `make`: a new zeroed array;
+* `append(s, xs...)`     — `goAppend`: **writes in place** into `s`'s array when `len+|xs| ≤ cap`, otherwise
+                           allocates a new array (Go's semantics — this is what makes aliasing bugs possible);
+* `s[i] = x`, `copy(dst, src)` — `setAt`, `writeFrom`: in-place writes.
+
+A program runs on a state with two slice registers (`a`, `b`: the Go function's local slice variables such as
+`ret`, `left`/`right`, `ns`) and may read any slice it was given.  Which programs are frame-safe is NOT built
+into the primitives: `goAppend` happily writes into an argument's spare capacity (see `mergeSeqBad`).  That the
+library's programs never do is the theorem `Spec.C04.frame_step`.
 Elements are integers; predicates and functions are arbitrary.
 -/
 namespace FpVerif.SliceHeap
@@ -28,21 +37,98 @@ def view (h : Heap) (s : Slice) : List Int :=
   | none => []
   | some a => ((h.getD a []).drop s.off).take s.len
 
-/-- result of an operation -/
-inductive Res where
-  | alias (s : Slice)                 -- shares storage with an argument
-  | fresh (xs : List Int)             -- newly allocated array with these elements
-  | fresh2 (xs ys : List Int)         -- two newly allocated arrays (Span, Partition)
-  | none                              -- no slice result (folds, conversions)
-  deriving Repr
+/-- `s[i]` -/
+def rd (h : Heap) (s : Slice) (i : Nat) : Int := (view h s).getD i 0
+
+/-! ## Go's primitives -/
+
+/-- replace array `a` of the heap by `f` of it -/
+def updArr : Heap → Nat → (List Int → List Int) → Heap
+  | [], _, _ => []
+  | x :: xs, 0, f => f x :: xs
+  | x :: xs, a + 1, f => x :: updArr xs a f
+
+/-- overwrite `arr[pos ..]` with `xs` (never beyond the array) -/
+def writeFrom (arr : List Int) (pos : Nat) (xs : List Int) : List Int :=
+  arr.mapIdx (fun i v => if pos ≤ i ∧ i < pos + xs.length then xs.getD (i - pos) v else v)
+
+/-- `make([]T, len, cap)` -/
+def make (h : Heap) (len cap : Nat) : Slice × Heap :=
+  ({ arr := some h.length, off := 0, len := len, cap := cap }, h ++ [List.replicate cap 0])
+
+/-- `[]T{x₁, …}` (also `fp.Seq[T]{}`: non-nil, no capacity) -/
+def lit (h : Heap) (xs : List Int) : Slice × Heap :=
+  ({ arr := some h.length, off := 0, len := xs.length, cap := xs.length }, h ++ [xs])
+
+/-- `append(s, xs...)`: in place when the capacity suffices, else a new array holding `s ++ xs`
+    (growth policy not modelled: the new array is exactly full) -/
+def goAppend (h : Heap) (s : Slice) (xs : List Int) : Slice × Heap :=
+  if xs.isEmpty then (s, h)
+  else
+    match s.arr with
+    | some a =>
+      if s.len + xs.length ≤ s.cap then
+        ({ s with len := s.len + xs.length }, updArr h a (fun arr => writeFrom arr (s.off + s.len) xs))
+      else lit h (view h s ++ xs)
+    | none => lit h xs
+
+/-- `s[i] = x` / `copy(s, xs)`: overwrite the window of `s` from index `i` (within its length) -/
+def setAt (h : Heap) (s : Slice) (i : Nat) (xs : List Int) : Heap :=
+  match s.arr with
+  | none => h
+  | some a => updArr h a (fun arr => writeFrom arr (s.off + i) (xs.take (s.len - i)))
+
+/-! ## Programs: two slice registers over the heap -/
+
+structure St where
+  heap : Heap
+  a : Slice
+  b : Slice
+
+abbrev Step := St → St
+
+def seq (p q : Step) : Step := fun st => q (p st)
+infixr:60 " ;; " => seq
+
+/-- `for i := 0; i < n; i++ { body i }` -/
+def iter : Nat → (Nat → Step) → Step
+  | 0, _ => id
+  | n + 1, body => fun st => body n (iter n body st)
+
+def mkA (len cap : Nat) : Step := fun st => let (s, h) := make st.heap len cap; { st with heap := h, a := s }
+def mkB (len cap : Nat) : Step := fun st => let (s, h) := make st.heap len cap; { st with heap := h, b := s }
+def litA (xs : St → List Int) : Step := fun st => let (s, h) := lit st.heap (xs st); { st with heap := h, a := s }
+def litB (xs : St → List Int) : Step := fun st => let (s, h) := lit st.heap (xs st); { st with heap := h, b := s }
+/-- `a = append(a, xs...)` -/
+def appA (xs : St → List Int) : Step := fun st => let (s, h) := goAppend st.heap st.a (xs st); { st with heap := h, a := s }
+def appB (xs : St → List Int) : Step := fun st => let (s, h) := goAppend st.heap st.b (xs st); { st with heap := h, b := s }
+/-- `a[i] = x` / `copy(a[i:], xs)` -/
+def setA (i : St → Nat) (xs : St → List Int) : Step := fun st => { st with heap := setAt st.heap st.a (i st) (xs st) }
+def setB (i : St → Nat) (xs : St → List Int) : Step := fun st => { st with heap := setAt st.heap st.b (i st) (xs st) }
+def moveBA : Step := fun st => { st with a := st.b }
+def nilA : Step := fun st => { st with a := Slice.nil }
+def cond (c : St → Bool) (p q : Step) : Step := fun st => if c st then p st else q st
+def skip : Step := id
+
+/-! ## The library functions -/
 
 inductive Op where
-  | widen | init | tail | take (n : Nat) | drop (n : Nat)
+  -- fp.Seq methods (seq.go)
+  | widen | init | tail | take (n : Nat) | drop (n : Nat) | unSeq
   | filter (p : Int → Bool) | filterNot (p : Int → Bool) | map (f : Int → Int)
+  | flatMap (mf : Int → Slice)
   | add (x : Int) | append (xs : List Int) | concat (t : Slice) | reverse
+  -- package seq (seq/seq_op.go)
   | sort (lt : Int → Int → Bool) | distinct | scan (z : Int) (f : Int → Int → Int)
   | span (p : Int → Bool) | partition (p : Int → Bool)
-  | fold | groupBy | toGoMap | collect | mapPkg (f : Int → Int) | flatten2
+  | fold | groupBy | toGoMap | collect | mapPkg (f : Int → Int)
+  | flatMapPkg (mf : Int → Slice) | flatten (ss : List Slice)
+  | ap (fs : List (Int → Int)) | map2 (t : Slice) (f : Int → Int → Int) | filterMap (fn : Int → Option Int)
+  | concatPkg (head : Int) | ofPkg | pure (x : Int)
+  -- monoid.MergeSeq / MergeSlice (monoid/monoid_op.go), seq.Reduce over them
+  | mergeCombine (t : Slice) | mergeEmpty | reduceMerge (ss : List Slice)
+  -- Iterator.ToSeq / iterator.ToSeq / ToSlice over iterator.FromSeq(s); Option.ToSeq
+  | iterToSeq | optToSeq (o : Option Int)
 
 def dedup : List Int → List Int → List Int
   | [], _ => []
@@ -52,47 +138,113 @@ def spanL (p : Int → Bool) : List Int → List Int × List Int
   | [] => ([], [])
   | x :: xs => if p x then let (l, r) := spanL p xs; (x :: l, r) else ([], x :: xs)
 
-/-- one library call on receiver/argument `s` -/
-def apply (h : Heap) (s : Slice) : Op → Res
+/-- `ret := make(Seq[T], r.Size()+tail.Size()); copy(ret, r); for i := range tail { ret[i+r.Size()] = tail[i] }`
+    into register `a` (Seq.Append / Seq.Concat) -/
+def concatInto (s : Slice) (tl : St → List Int) (n : Nat) : Step :=
+  mkA (s.len + n) (s.len + n) ;;
+  setA (fun _ => 0) (fun st => view st.heap s) ;;
+  iter n (fun i => setA (fun _ => i + s.len) (fun st => [(tl st).getD i 0]))
+
+/-- `Map(a, f)` into register `b`: `ret := make(Seq[U], len(a)); for i, v := range a { ret[i] = f(v) }` -/
+def mapIntoB (t : Slice) (f : St → Int → Int) : Step :=
+  mkB t.len t.len ;; iter t.len (fun j => setB (fun _ => j) (fun st => [f st (rd st.heap t j)]))
+
+/-- `FlatMap(s, fn)`: `ret := make(Seq[U], 0, len(s)); for _, v := range s { ret = append(ret, fn(v)...) }`
+    where the chunk is computed by `chunk i` (which may itself allocate, into register `b`) -/
+def flatMapWith (s : Slice) (chunk : Nat → Step) : Step :=
+  mkA 0 s.len ;; iter s.len (fun i => chunk i ;; appA (fun st => view st.heap st.b))
+
+/-- the program of an operation on receiver / first argument `s`; `none` for the operations that return a
+    window of `s` or nothing -/
+def prog (s : Slice) : Op → Option Step
+  | .filter p => some (mkA 0 s.len ;; iter s.len (fun i =>
+      cond (fun st => p (rd st.heap s i)) (appA (fun st => [rd st.heap s i])) skip))
+  | .filterNot p => some (mkA 0 s.len ;; iter s.len (fun i =>
+      cond (fun st => !p (rd st.heap s i)) (appA (fun st => [rd st.heap s i])) skip))
+  | .map f => some (mkA 0 s.len ;; iter s.len (fun i => appA (fun st => [f (rd st.heap s i)])))
+  | .flatMap mf => some (mkA 0 s.len ;; iter s.len (fun i => appA (fun st => view st.heap (mf (rd st.heap s i)))))
+  | .flatMapPkg mf => some (mkA 0 s.len ;; iter s.len (fun i => appA (fun st => view st.heap (mf (rd st.heap s i)))))
+  | .add x => some (concatInto s (fun _ => [x]) 1)
+  | .append xs => if xs.length > 0 then some (concatInto s (fun _ => xs) xs.length) else none
+  | .concat t => if t.len > 0 then some (concatInto s (fun st => view st.heap t) t.len) else none
+  | .mergeCombine t => if t.len > 0 then some (concatInto s (fun st => view st.heap t) t.len) else none
+  | .reverse => some (mkA s.len s.len ;; iter s.len (fun i => setA (fun _ => s.len - i - 1) (fun st => [rd st.heap s i])))
+  | .sort lt => some (mkA s.len s.len ;; setA (fun _ => 0) (fun st => view st.heap s) ;;
+      setA (fun _ => 0) (fun st => (view st.heap st.a).mergeSort (fun x y => !lt y x)))   -- sort.Sort on the COPY
+  | .distinct => some (mkA 0 s.len ;; iter s.len (fun i =>
+      cond (fun st => ((view st.heap s).take i).contains (rd st.heap s i)) skip (appA (fun st => [rd st.heap s i]))))
+  | .scan z f =>
+      if s.len = 0 then some (litA (fun _ => [z]))
+      else some (mkA (s.len + 1) (s.len + 1) ;; setA (fun _ => 0) (fun _ => [z]) ;;
+        iter s.len (fun i => setA (fun _ => i + 1) (fun st => [((view st.heap s).take (i + 1)).foldl f z])))
+  | .span p => some (litA (fun _ => []) ;; litB (fun _ => []) ;; iter s.len (fun i =>
+      cond (fun st => ((view st.heap s).take (i + 1)).all p) (appA (fun st => [rd st.heap s i])) (appB (fun st => [rd st.heap s i]))))
+  | .partition p => some (litA (fun _ => []) ;; litB (fun _ => []) ;; iter s.len (fun i =>
+      cond (fun st => p (rd st.heap s i)) (appA (fun st => [rd st.heap s i])) (appB (fun st => [rd st.heap s i]))))
+  | .collect => some (litA (fun _ => []) ;; iter s.len (fun i => appA (fun st => [rd st.heap s i])))
+  | .iterToSeq => some (litA (fun _ => []) ;; iter s.len (fun i => appA (fun st => [rd st.heap s i])))
+  | .mapPkg f => some (mkA s.len s.len ;; iter s.len (fun i => setA (fun _ => i) (fun st => [f (rd st.heap s i)])))
+  | .flatten ss => some (mkA 0 ss.length ;; iter ss.length (fun i => appA (fun st => view st.heap (ss.getD i Slice.nil))))
+  | .ap fs => some (mkA 0 fs.length ;; iter fs.length (fun i =>
+      mapIntoB s (fun _ v => (fs.getD i id) v) ;; appA (fun st => view st.heap st.b)))
+  | .map2 t f => some (flatMapWith s (fun i => mapIntoB t (fun st v2 => f (rd st.heap s i) v2)))
+  | .filterMap fn => some (mkA 0 s.len ;; iter s.len (fun i =>
+      cond (fun st => (fn (rd st.heap s i)).isSome)
+        (litB (fun st => (fn (rd st.heap s i)).toList) ;; appA (fun st => view st.heap st.b))   -- option.ToSeq: Seq[T]{v}
+        skip))                                                                                  -- append(ret, nil...)
+  | .concatPkg head =>
+      if s.len > 0 then some (litB (fun _ => [head]) ;; mkA (1 + s.len) (1 + s.len) ;; setA (fun _ => 0) (fun st => view st.heap st.b) ;;
+        iter s.len (fun i => setA (fun _ => i + 1) (fun st => [rd st.heap s i])))
+      else some (litA (fun _ => [head]))                                                        -- Of(head).Concat(empty) = Of(head)
+  | .pure x => some (litA (fun _ => [x]))
+  | .optToSeq o => o.map (fun x => litA (fun _ => [x]))     -- Some(x): []T{x}; None: nil
+  | .reduceMerge ss => some (nilA ;; iter ss.length (fun i =>
+      cond (fun _ => (ss.getD i Slice.nil).len > 0)
+        (fun st => (mkB (st.a.len + (ss.getD i Slice.nil).len) (st.a.len + (ss.getD i Slice.nil).len) ;;
+          setB (fun _ => 0) (fun st' => view st'.heap st.a) ;;
+          setB (fun _ => st.a.len) (fun st' => view st'.heap (ss.getD i Slice.nil)) ;; moveBA) st)
+        skip))
+  | _ => none
+
+/-- result of an operation -/
+inductive Res where
+  | alias (s : Slice)          -- a window of (or exactly) the receiver / argument; `Slice.nil` for nil
+  | regA                       -- register `a` of the program
+  | regAB                      -- registers `a` and `b` (Span, Partition)
+  | none                       -- no slice result (folds, conversions)
+  deriving Repr
+
+/-- what an operation returns -/
+def resOf (s : Slice) : Op → Res
   | .widen => .alias s
+  | .ofPkg => .alias s
   | .init => if s.len > 1 then .alias { s with len := s.len - 1, cap := s.cap } else .alias Slice.nil
   | .tail => if s.len > 0 then .alias { s with off := s.off + 1, len := s.len - 1, cap := s.cap - 1 } else .alias Slice.nil
+  | .unSeq => if s.len > 0 then .alias { s with off := s.off + 1, len := s.len - 1, cap := s.cap - 1 } else .alias Slice.nil
   | .take n => if s.len < n then .alias s else .alias { s with len := n }
   | .drop n => if s.len < n then .alias Slice.nil else .alias { s with off := s.off + n, len := s.len - n, cap := s.cap - n }
-  | .filter p => .fresh ((view h s).filter p)
-  | .filterNot p => .fresh ((view h s).filter (fun x => !p x))
-  | .map f => .fresh ((view h s).map f)
-  | .add x => .fresh (view h s ++ [x])
-  | .append xs => if xs.length > 0 then .fresh (view h s ++ xs) else .alias s
-  | .concat t => if t.len > 0 then .fresh (view h s ++ view h t) else .alias s
-  | .reverse => .fresh (view h s).reverse
-  | .sort lt => .fresh ((view h s).mergeSort (fun a b => !lt b a))   -- a sorted copy
-  | .distinct => .fresh (dedup (view h s) [])
-  | .scan z f => .fresh ((view h s).foldl (fun acc x => acc ++ [f (acc.getLastD z) x]) [z])
-  | .span p => let (l, r) := spanL p (view h s); .fresh2 l r
-  | .partition p => .fresh2 ((view h s).filter p) ((view h s).filter (fun x => !p x))
+  | .append xs => if xs.length > 0 then .regA else .alias s
+  | .concat t => if t.len > 0 then .regA else .alias s
+  | .mergeCombine t => if t.len > 0 then .regA else .alias s
+  | .mergeEmpty => .alias Slice.nil
+  | .optToSeq o => if o.isSome then .regA else .alias Slice.nil
+  | .span _ => .regAB
+  | .partition _ => .regAB
   | .fold => .none
   | .groupBy => .none
   | .toGoMap => .none
-  | .collect => .fresh (view h s)
-  | .mapPkg f => .fresh ((view h s).map f)
-  | .flatten2 => .fresh (view h s ++ view h s)
+  | _ => .regA
 
-/-- the heap after the call: only new arrays are added; NO existing array is written -/
-def heapAfter (h : Heap) (r : Res) : Heap :=
-  match r with
-  | .fresh xs => h ++ [xs]
-  | .fresh2 xs ys => h ++ [xs, ys]
-  | _ => h
-
-/-- the slices the call returns -/
-def results (h : Heap) (r : Res) : List Slice :=
-  match r with
-  | .alias s => [s]
-  | .fresh xs => [{ arr := some h.length, off := 0, len := xs.length, cap := xs.length }]
-  | .fresh2 xs ys => [{ arr := some h.length, off := 0, len := xs.length, cap := xs.length },
-                       { arr := some (h.length + 1), off := 0, len := ys.length, cap := ys.length }]
-  | .none => []
+/-- one library call on receiver / argument `s`: the slices it returns and the heap it leaves -/
+def exec (h : Heap) (s : Slice) (op : Op) : List Slice × Heap :=
+  let st := match prog s op with
+    | some p => p { heap := h, a := Slice.nil, b := Slice.nil }
+    | none => { heap := h, a := Slice.nil, b := Slice.nil }
+  match resOf s op with
+  | .alias t => ([t], st.heap)
+  | .regA => ([st.a], st.heap)
+  | .regAB => ([st.a, st.b], st.heap)
+  | .none => ([], st.heap)
 
 /-- a history: each step applies an operation to one of the live slices and makes its results live too -/
 structure World where
@@ -101,9 +253,12 @@ structure World where
 
 def stepW (w : World) (i : Nat) (op : Op) : World :=
   let s := w.live.getD i Slice.nil
-  let r := apply w.heap s op
-  { heap := heapAfter w.heap r, live := w.live ++ results w.heap r }
+  let r := exec w.heap s op
+  { heap := r.2, live := w.live ++ r.1 }
 
 def runW (w : World) (ops : List (Nat × Op)) : World := ops.foldl (fun w io => stepW w io.1 io.2) w
+
+/-- NOT the library: `Combine` rewritten as `append(a, b...)` — a program the discipline of `Spec.C04` rejects -/
+def mergeSeqBad (h : Heap) (a b : Slice) : Slice × Heap := goAppend h a (view h b)
 
 end FpVerif.SliceHeap
